@@ -165,7 +165,7 @@ def child_main(job_path):
     # layouts
     layouts = []
     names = [c.__name__ for c in CLASSES]
-    for nm in names:
+    for nm in (names if not job.get("few_histories") else ["DFState", "DFTransition", "RegexNFState", "Match"]):
         for perm in list(itertools.permutations(range(3)))[1:]:
             layouts.append(("first3", nm, perm))
     layouts.append(("reverse", None, None))
